@@ -4,7 +4,6 @@ from __future__ import annotations
 
 from typing import TYPE_CHECKING
 
-from liquid import Mode
 from liquid.exceptions import LiquidSyntaxError
 from liquid.token import TOKEN_ASSIGN
 from liquid.token import TOKEN_COLON
@@ -67,11 +66,14 @@ class KeywordArgument:
                 tokens.eat_one_of(*argument_separators)
                 value = parse_primitive(env, tokens)
                 args.append(KeywordArgument(token, token.value, value))
-                if env.mode == Mode.STRICT and tokens.current.kind == TOKEN_WORD:
-                    raise LiquidSyntaxError(
-                        "expected a comma separated list of arguments, "
-                        f"found {tokens.current.kind}",
-                        token=tokens.current,
+                if tokens.current.kind == TOKEN_WORD:
+                    # Raise in strict mode, warn in warn mode, ignore in lax mode.
+                    env.error(
+                        LiquidSyntaxError(
+                            "expected a comma separated list of arguments, "
+                            f"found {tokens.current.kind}",
+                            token=tokens.current,
+                        )
                     )
             else:
                 raise LiquidSyntaxError(
